@@ -37,8 +37,10 @@ Initialize(s, kp) ==
   /\ IF init THEN Step("init", FALSE) /\ UNCHANGED <<init, slots, tag, tagOK, ntok, good>>
      ELSE /\ Step("init", TRUE) /\ init' = TRUE /\ slots' = Put(Empty, s, [for |-> kp, tok |-> ntok + 1]) /\ ntok' = ntok + 1
           /\ Retag(slots')
+(* key pair 0 = a public key that cannot be used for encryption (malformed): the call is refused and, like every refused call, *)
+(* has no effect                                                                                                                *)
 AddSlot(new, kpnew, old, kpold) ==
-  LET ok == new \notin DOMAIN slots /\ CanGet(old, kpold) IN
+  LET ok == new \notin DOMAIN slots /\ CanGet(old, kpold) /\ kpnew # 0 IN
   /\ Step("add", ok)
   /\ IF ok THEN slots' = Put(slots, new, [for |-> kpnew, tok |-> ntok + 1]) /\ ntok' = ntok + 1 /\ Retag(slots')
      ELSE UNCHANGED <<slots, ntok, tag, tagOK, good>>
@@ -70,7 +72,7 @@ Adversary == /\ Pristine
                 \/ \E s \in SlotIds, v \in {"empty", "garbage", "copy"} : BackdoorAdd(s, v)
                 \/ AlterTag
 Next == \/ \E s \in SlotIds, kp \in KeyPairs : Initialize(s, kp) \/ DeleteSlot(s, kp) \/ GetMaster(s, kp)
-        \/ \E n, o \in SlotIds, kn, ko \in KeyPairs : AddSlot(n, kn, o, ko)
+        \/ \E n, o \in SlotIds, kn \in KeyPairs \cup {0}, ko \in KeyPairs : AddSlot(n, kn, o, ko)
         \/ Adversary
 Spec == Init /\ [][Next]_vars
 
